@@ -17,12 +17,16 @@ import (
 	"runtime/debug"
 	"strconv"
 	"strings"
+	"sync"
+	"sync/atomic"
 	"syscall"
 	"time"
 
 	"github.com/go-logr/logr"
 
+	"go.minekube.com/brigodier"
 	"go.minekube.com/gate/pkg/edition/java/proto/codec"
+	"go.minekube.com/gate/pkg/edition/java/proto/packet"
 	"go.minekube.com/gate/pkg/edition/java/proto/util"
 	"go.minekube.com/gate/pkg/gate/proto"
 
@@ -69,6 +73,11 @@ func child() {
 			return
 		}
 		f := strings.Fields(line)
+		if len(f) >= 2 && f[0] == "C" {
+			fmt.Fprintln(out, concurrentDecode(entries, f[1:]))
+			out.Flush()
+			continue
+		}
 		if len(f) != 2 {
 			continue
 		}
@@ -82,6 +91,51 @@ func child() {
 			os.Exit(3) // the decoding goroutine cannot be stopped: the parent starts a fresh child
 		}
 	}
+}
+
+// concurrentDecode: every item `<entry>:<hex>` is decoded by concGoroutines goroutines at the same time, all released
+// together — as many connections' read goroutines decode at once.  This is the first decode of
+// each protocol in this (fresh) process, so any state a decoder initialises lazily and shares is initialised here, under
+// contention.  The runtime turns unsynchronised map access into `fatal error: concurrent map …`, which kills the process.
+const concGoroutines = 6
+
+func concurrentDecode(entries []pk.Entry, items []string) string {
+	type job struct {
+		e    pk.Entry
+		data []byte
+	}
+	var jobs []job
+	for _, it := range items {
+		k := strings.IndexByte(it, ':')
+		if k < 0 {
+			return "bad-item"
+		}
+		idx, _ := strconv.Atoi(it[:k])
+		jobs = append(jobs, job{entries[idx], hx.UnHex(it[k+1:])})
+	}
+	start := make(chan struct{})
+	var ready, bad atomic.Int64
+	var wg sync.WaitGroup
+	total := len(jobs) * concGoroutines
+	for _, j := range jobs {
+		for g := 0; g < concGoroutines; g++ {
+			wg.Add(1)
+			go func(j job) {
+				defer wg.Done()
+				ready.Add(1)
+				<-start
+				if _, left, err := j.e.Decode(j.data); err != nil || left != 0 {
+					bad.Add(1)
+				}
+			}(j)
+		}
+	}
+	for ready.Load() < int64(total) {
+		runtime.Gosched()
+	}
+	close(start)
+	wg.Wait()
+	return fmt.Sprintf("ok decoded=%d rejected=%d", total, bad.Load())
 }
 
 func varint(n int) []byte {
@@ -143,21 +197,39 @@ func decodeOne(e pk.Entry, data []byte) string {
 // parent
 
 type proc struct {
-	cmd *exec.Cmd
-	in  *bufio.Writer
-	out *bufio.Reader
+	cmd    *exec.Cmd
+	in     *bufio.Writer
+	out    *bufio.Reader
+	stderr *tailBuf
 }
+
+// tailBuf keeps the first 4 KiB a child wrote to stderr (the runtime's `fatal error: …` line comes first).
+type tailBuf struct {
+	mu sync.Mutex
+	b  []byte
+}
+
+func (t *tailBuf) Write(p []byte) (int, error) {
+	t.mu.Lock()
+	if len(t.b) < 4096 {
+		t.b = append(t.b, p[:min(len(p), 4096-len(t.b))]...)
+	}
+	t.mu.Unlock()
+	return len(p), nil
+}
+func (t *tailBuf) String() string { t.mu.Lock(); defer t.mu.Unlock(); return string(t.b) }
 
 func startChild(budgetFactor int) *proc {
 	cmd := exec.Command(os.Args[0], "--child", strconv.Itoa(budgetFactor))
 	cmd.Env = append(os.Environ(), "GOMEMLIMIT=4GiB")
 	stdin, _ := cmd.StdinPipe()
 	stdout, _ := cmd.StdoutPipe()
-	cmd.Stderr = nil
+	errBuf := &tailBuf{}
+	cmd.Stderr = errBuf
 	if err := cmd.Start(); err != nil {
 		panic(err)
 	}
-	return &proc{cmd: cmd, in: bufio.NewWriterSize(stdin, 1<<22), out: bufio.NewReaderSize(stdout, 1<<22)}
+	return &proc{cmd: cmd, in: bufio.NewWriterSize(stdin, 1<<22), out: bufio.NewReaderSize(stdout, 1<<22), stderr: errBuf}
 }
 
 func (p *proc) kill() {
@@ -248,6 +320,9 @@ func main() {
 	}
 	p.in.Flush()
 	p.kill()
+	concChildren, concDeaths := concurrentProbe(run, entries)
+	run.Extra["concurrent_decode_children"] = concChildren
+	run.Extra["concurrent_decode_deaths"] = concDeaths
 	run.Extra["registered_rows"] = len(entries)
 	run.Extra["cases_by_payload_class"] = classCount
 	run.Extra["child_crashes"] = crashes
@@ -667,4 +742,72 @@ func buildCases(run *hx.Run, entries []pk.Entry) []tcase {
 		}
 	}
 	return cases
+}
+
+// concurrentProbe: valid AvailableCommands bodies (generated trees with argument nodes) for every protocol the packet is
+// registered for are decoded CONCURRENTLY in a fresh child — repeated for a number of children, because each process
+// has only one "first decode" per protocol.  A child that dies with the runtime's `fatal error: concurrent map …` on
+// stderr is a fact that cannot occur when decoders share no mutable state (independent of timing and machine load):
+// `crash concurrent-map`.  Any other death is confirmed by a second fresh child before it is reported as `crash`.
+func concurrentProbe(run *hx.Run, entries []pk.Entry) (children, deaths int) {
+	var items []string
+	for idx, e := range entries {
+		if e.Name != "packet.AvailableCommands" {
+			continue
+		}
+		g := &pk.G{R: run.Rng, E: e}
+		for k := 0; k < 1; k++ {
+			ac := g.Packet().(*packet.AvailableCommands)
+			// plenty of argument nodes: every one looks its argument type up in the shared registry
+			for i := 0; i < 24; i++ {
+				ac.RootNode.AddChild(brigodier.Literal("q" + strconv.Itoa(i)).Then(brigodier.Argument("v", g.NumberArg())).Build())
+			}
+			enc, err := e.Encode(ac)
+			if err != nil {
+				continue
+			}
+			items = append(items, fmt.Sprintf("%d:%s", idx, hx.Hex(enc)))
+		}
+	}
+	line := "C " + strings.Join(items, " ")
+	n := run.Scale(20, 60)
+	for c := 0; c < n; c++ {
+		once := func() string {
+			p := startChild(1)
+			defer p.kill()
+			fmt.Fprintln(p.in, line)
+			p.in.Flush()
+			ch := make(chan string, 1)
+			go func() { s, _ := p.out.ReadString('\n'); ch <- strings.TrimSpace(s) }()
+			var res string
+			select {
+			case res = <-ch:
+			case <-time.After(wallCap):
+				res = ""
+			}
+			if res != "" {
+				return res
+			}
+			time.Sleep(50 * time.Millisecond) // let the stderr copier finish
+			if strings.Contains(p.stderr.String(), "concurrent map") {
+				return "crash concurrent-map"
+			}
+			return "crash"
+		}
+		res := once()
+		if res == "crash" { // not the unmistakable runtime message: must die again
+			if second := once(); !strings.HasPrefix(second, "crash") {
+				res = second
+			}
+		}
+		children++
+		if strings.HasPrefix(res, "crash") {
+			deaths++
+		}
+		run.Case("concurrent", fmt.Sprintf("conc %d %d %s", c, concGoroutines, strings.Join(items, ",")), res)
+		if deaths >= 3 {
+			break
+		}
+	}
+	return
 }
